@@ -99,6 +99,21 @@ CLAIMS["C12"] = {
             "claimed per function, not for whole runs.",
 }
 
+CLAIMS["C07"] = {
+    "engine": "E2-mirsym + E1-kani",
+    "design_ref": "DESIGN.md §1 C07",
+    "technique": "symbolic execution of the printer's MIR with z3 (write discipline, error propagation, emitted text "
+                 "vs documented spelling); Kani harnesses printing atoms into a short-writing / failing sink",
+    "text": "For every printer function the solver decides that all output goes through write_all/write_fmt, that "
+            "output stops at the first failing write and the error is returned, and that the leaf methods emit exactly "
+            "the documented text for all arguments and all 576 option sets (default formatter == customised formatter "
+            "with default options follows from both matching the same spelling table); Kani prints integers, booleans, "
+            "nil, null, symbols and keywords into a sink that accepts 0..=3 bytes per call or fails at any offset.",
+    "note": "E2 abstracts the writer to 'each write_all succeeds or fails'; that write_all itself delivers all bytes "
+            "to a short-writing sink is std's contract (restated in the Kani sink). Whole compound values end to end "
+            "(strings longer than the Kani bounds, nested lists) are covered structurally (loop-cut claims), not by runs.",
+}
+
 NOT_APPLICABLE = {
     "C09": "each point of the quantifier is a Rust program that must be compiled; the macro consumes proc_macro2 "
            "token trees produced by rustc's lexer; Kani ICEs compiling proc_macro2 and the code is String/Vec/"
